@@ -1,9 +1,9 @@
 SPECIFICATION Spec
-CONSTANTS Objs = {"a", "b", "c", "d"}
+CONSTANTS Objs = {"a", "b", "c"}
   Intervals = {1, 2}
-  MaxTicks = 2
+  MaxTicks = 3
   MaxOps = 2
   CompIdx = TRUE
   CompToDo = TRUE
-  IsolateErrors = TRUE
+  IsolateErrors = FALSE
 INVARIANT NoViolation
